@@ -39,6 +39,9 @@ JOBS += [
       replace_calls=["myth_spin_lock_body:verif_poplock_lock", "myth_spin_unlock_body:verif_poplock_unlock"], cbmc=["--unwind", "5", "--unwinding-assertions"],
       fuc=["myth_tls_key_allocator_dealloc"], timeout=600, mem_gb=12, note=RGNOTE),
 ]
+# the public API functions are one-line forwarders to the bodies under contract: checked mechanically (DESIGN §3.5b)
+from units.common_forward import forward_job
+JOBS = list(JOBS) + [forward_job("c10")]
 META = {
  "level": "proof",
  "level_text": "Contracts on the real TLS tree and key allocator bodies, for every key index, every canonical tree shape and arbitrary (unzeroed) pool memory; free-list well-formedness as a local inductive invariant over witness cells. Complete because all loops are bounded by constants of the type and fully unwound.",
